@@ -56,3 +56,8 @@ NA.update({
 })
 for _p in list(CLAIMED):
     NA.pop(_p, None)
+CLAIMED["C06"] = {
+    "text": "Working-memory clause only: bounded symbolic model checking of the real WorkingMemory: every history of K operations (insert with symbolic type, update/retract of ANY handle id incl. never-issued and retracted ones, clear); after every operation lookup by handle, the per-type view, the full listing and the handle listing must equal the reference 'active' set, update/retract succeed exactly on active facts, and every inserted handle is fresh (never reused, also across clear).",
+    "note": "Rule firing (IncrementalEngine::fire_all, propagation, action closures) is NOT covered. Payloads empty. Trusted: rsym + library model, z3, reference model. Bounded in K.",
+}
+NA.pop("C06", None)
